@@ -565,6 +565,9 @@ func accountRun(st *Stats, w *Workload, rep *RunReport, seen map[uint64]bool) {
 	st.Faults["fairness_guard_switches"] += uint64(o.Starved)
 	st.Faults["lock_deadlocks_detected"] += uint64(o.Deadlocks)
 	st.Faults["library_goroutines_run_as_clients"] += uint64(o.Spawned)
+	if o.Aborted {
+		st.Probes["runs_abandoned_goroutine_capacity"]++
+	}
 	if o.First != 0 {
 		st.Faults["start_skew_runs"]++
 	}
